@@ -81,7 +81,13 @@ impl<T: UnsizedType + ?Sized> InitK<T> for RunInit {
     where
         T: UnsizedInit<I>,
     {
-        (<T as UnsizedInit<I>>::INIT_BYTES, <T as SerializeType>::serialize_type_from_init(i))
+        // `TestByteSet::new_from_init` (= `new_default` for DefaultInit) must hold exactly those bytes
+        let via_tbs = star_frame::unsize::TestByteSet::<T>::new_from_init(i.clone()).and_then(|t| t.underlying_data()).ok();
+        let r = <T as SerializeType>::serialize_type_from_init(i);
+        if via_tbs.as_ref() != r.as_ref().ok() {
+            anomaly("test_buffer_init_differs_from_serialize_type_from_init");
+        }
+        (<T as UnsizedInit<I>>::INIT_BYTES, r)
     }
 }
 
@@ -105,7 +111,7 @@ impl<T: UnsizedType + ?Sized, I: 'static> InitK<T> for Downcast<I> {
 // ------------------------------------------------------------------------------------------------
 // fixed types
 
-pub trait Fx: CheckedBitPattern + NoUninit + Align1 + Zeroable + Copy + 'static {
+pub trait Fx: CheckedBitPattern + NoUninit + Align1 + Copy + 'static {
     fn fshape() -> Fixed;
     fn to_b(&self) -> Vec<u8> {
         bytemuck::bytes_of(self).to_vec()
@@ -373,7 +379,7 @@ impl<T: KeyTy, L: LenTy> Ux for Set<T, L> {
     }
 }
 
-impl<K0: KeyTy, V: Fx, L: LenTy> WithInit for Map<K0, V, L> {
+impl<K0: KeyTy, V: Fx + Zeroable, L: LenTy> WithInit for Map<K0, V, L> {
     fn with_init<K: InitK<Self>>(a: &Init, k: K) -> Option<K::Out> {
         match a {
             Init::Default => Some(k.go(DefaultInit)),
@@ -381,7 +387,7 @@ impl<K0: KeyTy, V: Fx, L: LenTy> WithInit for Map<K0, V, L> {
         }
     }
 }
-impl<K0: KeyTy, V: Fx, L: LenTy> Ux for Map<K0, V, L> {
+impl<K0: KeyTy, V: Fx + Zeroable, L: LenTy> Ux for Map<K0, V, L> {
     fn shape() -> Shape {
         Shape::Map(std::mem::size_of::<K0>(), V::fshape(), std::mem::size_of::<L>())
     }
